@@ -9,7 +9,7 @@ positive on positives, log1p strictly increasing on [0,∞), exp∘log1p = 1+·,
 quantile map weakly increasing) and `OffsetOK` (offset > 1, log offset > 0).
 Nothing here is about IEEE arithmetic (D12b is a float-resolution finding of the tie).
 -/
-import VizierModel.Lemmas.WarpPipeline
+import VizierModel.Lemmas.WarpOutlier
 import Mathlib.Algebra.Order.Field.Rat
 
 set_option linter.unusedSectionVars false
@@ -119,6 +119,17 @@ theorem c18_pipeline_monotone {F : Fns α} (hF : FnsOK F) {o : α} (ho : OffsetO
   obtain ⟨out, e, m, s⟩ := default_ptMono hF ho flag h
   obtain ⟨out2, e2, m2⟩ := outlier_ptMono hF z h
   exact ⟨⟨out, e, m.index, s⟩, ⟨out2, e2, m2.index⟩⟩
+
+/-- the outlier pipeline (detect outliers → infeasible → gaussian) yields finite labels only:
+the largest label is never an outlier, so the gaussian transform never divides by zero -/
+theorem c18_outlier_finite {F : Fns α} (hF : FnsOK F) {z : α} (hz : 0 ≤ z)
+    {raw : List (Raw α)} {l : List (Option α)} (h : validate raw = .ok l) :
+    ∃ out, outlierWarp F z raw = .ok out ∧ out.length = raw.length ∧ ∀ u ∈ out, u.isSome := by
+  obtain ⟨out, e, hs⟩ := outlier_all_some hF hz h
+  obtain ⟨out', e', m⟩ := outlier_ptMono hF z h
+  rw [e] at e'
+  cases e'
+  exact ⟨out, e, by rw [m.index.1, ((c18_validate raw).2 l h).1], hs⟩
 
 /-! ## the default pipeline keeps the ranking exactly and yields finite labels -/
 
